@@ -1191,6 +1191,41 @@ struct StormShared {
     per_run: AtomicU64,
     inside: AtomicU64,
     max_inside: AtomicU64,
+    /// spawners that have finished their run in the current frame
+    done: AtomicU64,
+    /// handles a spawner found dead before the frame's maintain (deferred deletions must stay invisible)
+    early_dead: Mutex<Vec<(usize, Entity)>>,
+}
+
+/// Co-staged with the spawners (it only reads `EntitiesRes`): deletes, deferred, part of what it joins -
+/// including entities the spawners created a moment ago. Nothing of that may be visible to the spawners
+/// before the frame's `maintain`.
+struct Reaper {
+    sh: Arc<StormShared>,
+    id: usize,
+    nspawn: u64,
+}
+
+impl<'a> System<'a> for Reaper {
+    type SystemData = Entities<'a>;
+    fn run(&mut self, ents: Self::SystemData) {
+        let sh = &*self.sh;
+        sh.slots[self.id].runs.fetch_add(1, SeqCst);
+        let mut mine: Vec<Entity> = Vec::new();
+        let mut seen: std::collections::HashSet<Entity> = std::collections::HashSet::new();
+        for _pass in 0..200 {
+            for e in (&*ents).join() {
+                if e.id() % 3 == 0 && seen.insert(e) && ents.delete(e).is_ok() {
+                    mine.push(e);
+                }
+            }
+            if sh.done.load(SeqCst) >= self.nspawn {
+                break;
+            }
+            std::thread::yield_now();
+        }
+        *sh.slots[self.id].out.lock().unwrap_or_else(|e| e.into_inner()) = mine;
+    }
 }
 
 struct Spawner<const K: usize> {
@@ -1226,8 +1261,18 @@ impl<const K: usize> Spawner<K> {
                 }
             },
         }
+        // a deferred deletion issued meanwhile by a co-staged system takes effect at `maintain`, not now
+        for e in &mine {
+            if !ents.is_alive(*e) {
+                let mut f = sh.early_dead.lock().unwrap_or_else(|e| e.into_inner());
+                if f.len() < 8 {
+                    f.push((self.id, *e));
+                }
+            }
+        }
         *sh.slots[self.id].out.lock().unwrap_or_else(|e| e.into_inner()) = mine;
         sh.inside.fetch_sub(1, SeqCst);
+        sh.done.fetch_add(1, SeqCst);
     }
 }
 
@@ -1268,11 +1313,14 @@ fn storm_case(rep: &mut Report, case: u64, pools: &mut BTreeMap<usize, Arc<Threa
             return;
         }
     };
+    let reaper = rng.chance(1, 2);
     let sh = Arc::new(StormShared {
-        slots: (0..nsys).map(|_| StormSlot::default()).collect(),
+        slots: (0..nsys + reaper as usize).map(|_| StormSlot::default()).collect(),
         per_run: AtomicU64::new(0),
         inside: AtomicU64::new(0),
         max_inside: AtomicU64::new(0),
+        done: AtomicU64::new(0),
+        early_dead: Mutex::new(Vec::new()),
     });
     let mut b = DispatcherBuilder::new().with_pool(pool);
     for id in 0..nsys {
@@ -1283,12 +1331,18 @@ fn storm_case(rep: &mut Report, case: u64, pools: &mut BTreeMap<usize, Arc<Threa
             _ => b.add(Spawner::<2> { sh: sh.clone(), id }, &name, &[]),
         }
     }
+    if reaper {
+        b.add(Reaper { sh: sh.clone(), id: nsys, nspawn: nsys as u64 }, "reaper", &[]);
+        hist.push("plus a co-staged reaper (deferred deletions of a third of what it joins)".into());
+        rep.bump("storm_cases_with_reaper", 1);
+    }
     let mut d = b.build();
     let mut world = World::new();
     d.setup(&mut world);
     rep.cases_run += 1;
     rep.bump("storm_cases", 1);
     let mut live: Vec<Entity> = Vec::new();
+    let mut reaped_with_fresh = 0u64;
     for f in 0..frames {
         // free list length ~ a fraction of what the frame will allocate, so it runs dry mid-frame
         let per = rng.range(200, 2000) as u64;
@@ -1305,6 +1359,7 @@ fn storm_case(rep: &mut Report, case: u64, pools: &mut BTreeMap<usize, Arc<Threa
         }
         world.maintain();
         sh.per_run.store(per, SeqCst);
+        sh.done.store(0, SeqCst);
         let line = format!("frame {}: {} recycled indices, {} systems x {} creations", f, dead.len(), nsys, per);
         trace::push(&line);
         hist.push(line);
@@ -1321,8 +1376,28 @@ fn storm_case(rep: &mut Report, case: u64, pools: &mut BTreeMap<usize, Arc<Threa
             rep.violation("C11", case, hist.len(), msg, "C11:dispatch-panic".into(), &hist);
             return;
         }
+        if let Some((i, e)) = sh.early_dead.lock().unwrap_or_else(|e| e.into_inner()).first().cloned() {
+            let msg = format!(
+                "storm frame {}: system #{} created {:?} and found it dead before the frame's maintain: a deferred deletion by a co-staged system (which only reads `Entities`) became visible inside the dispatch",
+                f, i, e
+            );
+            rep.violation("C11", case, hist.len(), msg, "C11:storm-deferred-delete-visible".into(), &hist);
+            return;
+        }
+        let reaped: std::collections::HashSet<Entity> = if reaper {
+            let runs = sh.slots[nsys].runs.load(SeqCst);
+            if runs != before[nsys] + 1 {
+                let msg = format!("storm frame {}: the reaper ran {} times instead of exactly once", f, runs - before[nsys]);
+                rep.violation("C11", case, hist.len(), msg, "C11:not-exactly-once".into(), &hist);
+                return;
+            }
+            std::mem::take(&mut *sh.slots[nsys].out.lock().unwrap_or_else(|e| e.into_inner())).into_iter().collect()
+        } else {
+            Default::default()
+        };
+        rep.bump("storm_deferred_deletions_by_reaper", reaped.len() as u64);
         let mut seen: std::collections::HashSet<Entity> = std::collections::HashSet::with_capacity(demand);
-        for (i, s) in sh.slots.iter().enumerate() {
+        for (i, s) in sh.slots.iter().enumerate().take(nsys) {
             let runs = s.runs.load(SeqCst);
             if runs != before[i] + 1 {
                 let msg = format!("storm frame {}: system #{} ran {} times instead of exactly once", f, i, runs - before[i]);
@@ -1351,14 +1426,28 @@ fn storm_case(rep: &mut Report, case: u64, pools: &mut BTreeMap<usize, Arc<Threa
         world.maintain();
         {
             let ents = world.entities();
-            if let Some(e) = seen.iter().find(|e| !ents.is_alive(**e)) {
-                let msg = format!("storm frame {}: {:?} created inside the dispatch is not alive after maintain", f, e);
+            if let Some(e) = seen.iter().find(|e| ents.is_alive(**e) == reaped.contains(*e)) {
+                let msg = format!(
+                    "storm frame {}: {:?} created inside the dispatch is {} after maintain although the reaper {} it",
+                    f,
+                    e,
+                    if ents.is_alive(*e) { "alive" } else { "dead" },
+                    if reaped.contains(e) { "deleted" } else { "did not delete" }
+                );
+                rep.violation("C11", case, hist.len(), msg, "C11:storm-lost-entity".into(), &hist);
+                return;
+            }
+            if let Some(e) = live.iter().find(|e| ents.is_alive(**e) == reaped.contains(*e)) {
+                let msg = format!("storm frame {}: older entity {:?}: aliveness after maintain does not match the reaper's deletions", f, e);
                 rep.violation("C11", case, hist.len(), msg, "C11:storm-lost-entity".into(), &hist);
                 return;
             }
         }
+        seen.retain(|e| !reaped.contains(e));
+        live.retain(|e| !reaped.contains(e));
+        reaped_with_fresh += reaped.len() as u64;
         rep.bump("storm_entities_created", seen.len() as u64);
-        rep.max("storm_max_concurrent_spawners", sh.max_inside.load(SeqCst));
+        rep.max("max_storm_concurrent_spawners", sh.max_inside.load(SeqCst));
         live.extend(seen);
         // keep the world bounded
         if live.len() > 40_000 {
@@ -1367,6 +1456,7 @@ fn storm_case(rep: &mut Report, case: u64, pools: &mut BTreeMap<usize, Arc<Threa
             world.maintain();
         }
     }
+    rep.max("max_storm_reaped_in_one_case", reaped_with_fresh);
     if sh.max_inside.load(SeqCst) >= 2 {
         rep.bump("storm_cases_with_overlap", 1);
         rep.distinct(derive(0, &[hash_str("storm"), nsys as u64, threads as u64, sh.max_inside.load(SeqCst)]).next());
